@@ -171,6 +171,9 @@ inductive Err where
   | keyError
   /-- `AttributeError`: `self.iface` / `self.member` is `None`, or lacks the slot that is accessed -/
   | attributeError
+  /-- `TypeError('Invalid interface argument: …')`: a positional argument of `DBusInterface(name, *args)` that is
+  not a `Method` / `Signal` / `Property` instance (Intro/Registry.lean) -/
+  | notMember
   /-- outside the model: see the header (aliased mutation of a stored member, wrong-kind member stored) -/
   | unmodelled
   deriving DecidableEq, Repr, Inhabited
